@@ -123,6 +123,8 @@ type FuncCtx struct {
 	ghostStack []map[string]*Val
 	pendingWB []writeBack
 	observed map[string]bool
+	callOrd  map[*ast.CallExpr]int
+	loopEntry *State
 	noMerge  bool
 }
 
